@@ -17,8 +17,21 @@ BEH = {"ret": "FRet", "raise": "FRaise", "defer": "FDefer", "stopret": "FStopRet
 _RESTART_WHILE_PENDING = {}      # case hash -> bool, filled by impl(), read by to_coq()
 
 
+_QUIET = [False]
+
+
+def _quiet_logging():
+    """Failures left in garbage-collected Deferreds (only in the known-finding class) would be printed to stderr."""
+    if not _QUIET[0]:
+        from twisted.logger import globalLogBeginner
+        globalLogBeginner.beginLoggingTo([lambda event: None], redirectStandardIO=False, discardBuffer=True)
+        _QUIET[0] = True
+
+
 def impl(case) -> str:
     from twisted.internet import defer, task
+
+    _quiet_logging()
 
     K = 2 ** case["k"]
     beh = case["beh"]
@@ -300,21 +313,25 @@ BEHS = [[], ["defer"], ["ret", "defer", "ret", "defer"], ["ret", "raise"], ["sto
 
 def gen(rng, tier):
     cases = []
-    depth = 3 if tier == "quick" else 5
+    depth = 3 if tier == "quick" else 4
     for nowflag in (True, False):
         for count in (False, True):
             for beh in BEHS:
                 for n in range(1, depth + 1):
                     for word in itertools.product(range(len(ALPHABET)), repeat=n):
-                        if tier == "quick" and n == depth and rng.random() > 0.15:
+                        if tier == "quick" and n == depth and rng.random() > 0.015:
                             continue
-                        if tier != "quick" and n == depth and rng.random() > 0.1:
+                        if tier == "quick" and n == depth - 1 and rng.random() > 0.25:
+                            continue
+                        if tier != "quick" and n == depth and rng.random() > 0.01:
+                            continue
+                        if tier != "quick" and n == depth - 1 and rng.random() > 0.5:
                             continue
                         ops = [["start", 3, nowflag]] + [ALPHABET[a] for a in word] + [["adv", 3]]
                         cases.append({"k": 1, "count": count, "beh": beh, "ops": ops})
-    for _ in range(400 if tier == "quick" else 20000):
+    for _ in range(200 if tier == "quick" else 4000):
         cases.append(rand_case(rng))
-    for _ in range(60 if tier == "quick" else 2000):
+    for _ in range(40 if tier == "quick" else 500):
         cases.append(rand_case(rng, restart=True))
     return cases
 
@@ -388,8 +405,8 @@ SPEC = Spec(
     model_equal=lambda c, impl_obs, model_obs: digest(impl_obs) == model_obs,
     nontrivial=lambda c, o: sum(1 for t in o.split(" ") if t.startswith("c")) >= 2,
     histogram=histogram,
-    rule="start(3, now in {T,F}) x withCount in {T,F} x 7 behaviour tables x every word of length <= 3 (quick, longest "
-         "sampled 15%) / <= 5 (thorough, longest 10%) over {advance 1/2/3/7, fire ok, fire err, stop, reset, start}; random "
+    rule="start(3, now in {T,F}) x withCount in {T,F} x 7 behaviour tables x every word of length <= 3 (quick, length 2 "
+         "sampled 25%, length 3 sampled 1.5%) / <= 4 (thorough, length 3 50%, length 4 1%) over {advance 1/2/3/7, fire ok, fire err, stop, reset, start}; random "
          "schedules: intervals 1..7*2^20 at scales 2^0..2^-10, sub-interval steps, interval+-1, 1-3 interval jumps, "
          "5-1000 interval jumps, latencies (Deferreds fired later, possibly with failure), stop/reset from outside and "
          "from inside f, restarts; a stream that restarts while a Deferred is unfired (known-finding class); "
